@@ -9,5 +9,6 @@ use shuttle::sync::Arc;
 use shuttle::{thread, Config, Runner};
 use std::sync::atomic::{AtomicUsize, Ordering};
 use vlib::actors::*;
+use vlib::cards;
 
 include!("body.rs");
